@@ -31,7 +31,9 @@ CONSTANTS
   Dev       \* deviations: subset of DevNames
 
 DevNames == {"FlightLeakOnAbandon", "AbandonSentOnly", "NoFwdResend", "FwdSeqBackward",
-             "PruneAllStreams", "PopNoReset", "NoT3OnRetx", "DupNotFiltered", "NoPopAfterPrune", "NoFlushOnSack"}
+             "PruneAllStreams", "NoT3OnRetx", "DupNotFiltered", "NoFlushOnSack",
+             \* harmless since ordered delivery skips undeliverable chunks (be1f8ac): kept as history
+             "PopNoReset", "NoPopAfterPrune"}
 
 VARIABLES snd, rcv, net, sentH, dlvH, badH, nDrop, nDup, nT3, healed, act
 
